@@ -19,6 +19,29 @@ Supported subset (anything else raises `Unsupported`, reported as a broken tie):
                 fresh names (become `let`), `if/elif/else` whose branches end in
                 `return` / `raise` (raise → `none` when the function is declared
                 partial), `return <expr>`.
+
+Extensions used by the kernels after C34 (class `Flow`, each one opt-in through the FnSpec):
+  expressions : `min(a, b)` / `max(a, b)`; `len(x)` ONLY as a parameter named in the rename
+                table; `%` and `//` as `Int.fmod` / `Int.fdiv` (Python's floored semantics for
+                every sign) when `floor_ops`; `int(a / b)` as `Int.tdiv a b` ONLY when the spec
+                carries `exact_truediv` = the text of the exactness assumption (the quotient of
+                the two floats is computed exactly enough that truncating it gives the truncated
+                integer quotient), which is copied into the generated file (a zero divisor is
+                NOT modelled: Lean's operations are total where Python raises ZeroDivisionError —
+                the gen_ theorem files say where the caller guards it); `x is None` /
+                `x is not None` ONLY for parameters whose None-ness the spec fixes (`nones`):
+                the test is resolved statically and the dead branch dropped (one Lean def per
+                None-pattern).
+  statements  : re-assignment (`x = e`, `a = b = e`, `x += e`) in SSA form (`x_1`, `x_2`, ...);
+                `if/elif/else` whose branches only assign, followed by more statements (merged:
+                `let x_k := if c then .. else ..`); `assert <e> is not None` (skipped: Optional
+                narrowing); tuple `return a, b` for `Int × Int`.
+  string loops (class `SegLoop`, the shape of ftp.toSegments only): `if <cond>: st = [] else:
+                st = param[:]`, then `for s in <param>.split("<c>")` whose body is an if/elif
+                chain of `continue` / `st.pop()` (only under `if st:`) / `st.append(s)` / `raise`,
+                then `return st`; conditions `s == "lit"`, `"<c>" in s`, `st` (non-empty), and /
+                or / not, `<param>.startswith("lit")`.  Text is `List UInt8` (code points < 256).
+                The loop becomes `List.foldlM` of the generated step function in `Option`.
 """
 from __future__ import annotations
 
@@ -40,8 +63,11 @@ class FnSpec:
     leanname: str
     params: list[tuple[str, str]]    # Lean params (name, type) in order
     rename: dict[str, str]           # python expression source → lean term (e.g. "self._number" → "a")
-    ret: str = "Int"                 # Lean return type; "Bool", "Int", "Option Int"
+    ret: str = "Int"                 # Lean return type; "Bool", "Int", "Option Int", "Int × Int"
     calls: dict[str, str] = field(default_factory=dict)   # python call text → lean term
+    floor_ops: bool = False          # `%`, `//` → Int.fmod / Int.fdiv (Python semantics for every sign)
+    exact_truediv: str = ""          # non-empty: `int(a / b)` → `Int.tdiv a b` under this stated assumption
+    nones: dict[str, bool] = field(default_factory=dict)  # python name → "is None" (resolved statically)
 
 
 CMP = {ast.Lt: "<", ast.LtE: "≤", ast.Gt: ">", ast.GtE: "≥", ast.Eq: "=", ast.NotEq: "≠"}
@@ -52,6 +78,7 @@ class Tr:
     def __init__(self, spec: FnSpec):
         self.spec = spec
         self.locals: set[str] = set()
+        self.env: dict[str, str] = {}      # Flow: python local → current SSA name / term
 
     # ---- expressions -------------------------------------------------------------
     def src(self, node) -> str:
@@ -64,14 +91,32 @@ class Tr:
 
     def int_expr(self, node) -> str:
         s = self.src(node)
+        if isinstance(node, ast.Name) and node.id in self.env:      # Flow: current SSA name wins
+            return self.env[node.id]
         if s in self.spec.rename:
             return self.spec.rename[s]
         if s in self.spec.calls and not self.spec.calls[s].startswith("(B)"):
             return self.spec.calls[s]
         if isinstance(node, ast.Constant) and isinstance(node.value, int) and not isinstance(node.value, bool):
             return f"({node.value} : Int)" if node.value >= 0 else f"(-{-node.value} : Int)"
+        if isinstance(node, ast.Name) and node.id in self.env:
+            return self.env[node.id]
         if isinstance(node, ast.Name) and node.id in self.locals:
             return node.id
+        if isinstance(node, ast.Call) and isinstance(node.func, ast.Name) and not node.keywords:
+            fn, args = node.func.id, node.args
+            if fn in ("min", "max") and len(args) == 2 and not any(isinstance(a, ast.Starred) for a in args):
+                return f"({fn} {self.int_expr(args[0])} {self.int_expr(args[1])})"
+            if fn == "len":
+                raise Unsupported(f"len() of something that is not a declared parameter: {s}")
+            if (fn == "int" and len(args) == 1 and isinstance(args[0], ast.BinOp)
+                    and isinstance(args[0].op, ast.Div)):
+                if not self.spec.exact_truediv:
+                    raise Unsupported(f"int(a / b) without a stated exactness assumption: {s}")
+                return f"(Int.tdiv {self.int_expr(args[0].left)} {self.int_expr(args[0].right)})"
+        if isinstance(node, ast.BinOp) and self.spec.floor_ops and isinstance(node.op, (ast.Mod, ast.FloorDiv)):
+            f = "Int.fmod" if isinstance(node.op, ast.Mod) else "Int.fdiv"
+            return f"({f} {self.int_expr(node.left)} {self.int_expr(node.right)})"
         if isinstance(node, ast.BinOp):
             if isinstance(node.op, ast.Pow):
                 # base ** exponent : exponent must be a Nat-typed renamed term or a
@@ -131,6 +176,10 @@ class Tr:
             return self.int_expr(node)
         if self.spec.ret == "Option Int":
             return f"some {self.int_expr(self.unwrap_ctor(node))}"
+        if self.spec.ret == "Int × Int":
+            if not (isinstance(node, ast.Tuple) and len(node.elts) == 2):
+                raise Unsupported(f"return of something that is not a pair: {self.src(node)}")
+            return f"({self.int_expr(node.elts[0])}, {self.int_expr(node.elts[1])})"
         raise Unsupported(f"return type {self.spec.ret}")
 
     def unwrap_ctor(self, node):
@@ -190,6 +239,291 @@ class Tr:
         params = " ".join(f"({n} : {t})" for n, t in self.spec.params)
         body = self.block(fn.body, 1)
         return f"def {self.spec.leanname} {params} : {self.spec.ret} :=\n{body}"
+
+
+class Flow(Tr):
+    """Statement translation with re-assignment (SSA) and merging `if`s; see the module docstring."""
+
+    def __init__(self, spec: FnSpec):
+        super().__init__(spec)
+        self.counter: dict[str, int] = {}
+
+    def fresh(self, name: str) -> str:
+        self.counter[name] = self.counter.get(name, 0) + 1
+        return f"{name}_{self.counter[name]}"
+
+    # -- static resolution of `x is None`
+    def static(self, test):
+        if (isinstance(test, ast.Compare) and len(test.ops) == 1 and isinstance(test.ops[0], (ast.Is, ast.IsNot))
+                and isinstance(test.comparators[0], ast.Constant) and test.comparators[0].value is None):
+            key = self.src(test.left)
+            if key not in self.spec.nones:
+                raise Unsupported(f"None-test of something whose None-ness the spec does not fix: {self.src(test)}")
+            isnone = self.spec.nones[key]
+            return isnone if isinstance(test.ops[0], ast.Is) else not isnone
+        return None
+
+    def terminates(self, stmts) -> bool:
+        if not stmts:
+            return False
+        st = stmts[-1]
+        if isinstance(st, (ast.Return, ast.Raise)):
+            return True
+        if isinstance(st, ast.If):
+            r = self.static(st.test)
+            if r is True:
+                return self.terminates(st.body)
+            if r is False:
+                return self.terminates(st.orelse)
+            return bool(st.orelse) and self.terminates(st.body) and self.terminates(st.orelse)
+        return False
+
+    def assigned(self, st):
+        """[(python name, value node)] of an assignment statement, else None."""
+        if isinstance(st, ast.AnnAssign) and st.value is not None and isinstance(st.target, ast.Name):
+            return [(st.target.id, st.value)]
+        if isinstance(st, ast.Assign) and all(isinstance(t, ast.Name) for t in st.targets):
+            return [(t.id, st.value) for t in st.targets]
+        if isinstance(st, ast.AugAssign) and isinstance(st.target, ast.Name):
+            return [(st.target.id, ast.BinOp(left=ast.Name(id=st.target.id, ctx=ast.Load()), op=st.op, right=st.value))]
+        return None
+
+    def is_skip(self, st) -> bool:
+        if isinstance(st, ast.Expr) and isinstance(st.value, ast.Constant) and isinstance(st.value.value, str):
+            return True
+        if isinstance(st, ast.Assert):
+            t = st.test
+            if (isinstance(t, ast.Compare) and len(t.ops) == 1 and isinstance(t.ops[0], ast.IsNot)
+                    and isinstance(t.comparators[0], ast.Constant) and t.comparators[0].value is None):
+                return True      # Optional narrowing, outside the integer kernel
+            raise Unsupported(f"assert other than `<e> is not None`: {self.src(st)[:80]}")
+        return False
+
+    def sym(self, stmts, env):
+        """Evaluate an assignment-only branch symbolically: env → env'."""
+        env = dict(env)
+        for st in stmts:
+            if self.is_skip(st):
+                continue
+            asg = self.assigned(st)
+            if asg is not None:
+                saved, self.env = self.env, env
+                try:
+                    val = self.int_expr(asg[0][1])
+                finally:
+                    self.env = saved
+                for n, _ in asg:
+                    env[n] = val
+                continue
+            if isinstance(st, ast.If):
+                r = self.static(st.test)
+                if r is not None:
+                    env = self.sym(st.body if r else st.orelse, env)
+                    continue
+                saved, self.env = self.env, env
+                try:
+                    c = self.bool_prop(st.test)
+                finally:
+                    self.env = saved
+                e1, e2 = self.sym(st.body, env), self.sym(st.orelse, env)
+                for n in sorted(set(e1) | set(e2)):
+                    a, b = e1.get(n), e2.get(n)
+                    if a is None or b is None:
+                        raise Unsupported(f"{n} is assigned on one path only and was not defined before")
+                    if a != b:
+                        env[n] = f"(if {c} then {a} else {b})"
+                continue
+            raise Unsupported(f"statement not in subset inside a merging branch: {self.src(st)[:80]}")
+        return env
+
+    def block(self, stmts, indent) -> str:
+        pad = "  " * indent
+        stmts = list(stmts)
+        if not stmts:
+            raise Unsupported("control reaches end of function without return")
+        st, rest = stmts[0], stmts[1:]
+        if self.is_skip(st):
+            return self.block(rest, indent)
+        asg = self.assigned(st)
+        if asg is not None:
+            rhs = self.int_expr(asg[0][1])      # evaluated once, before any target is rebound
+            first = self.fresh(asg[0][0])
+            out = f"{pad}let {first} : Int := {rhs}\n"
+            self.env[asg[0][0]] = first
+            for n, _ in asg[1:]:
+                k = self.fresh(n)
+                out += f"{pad}let {k} : Int := {first}\n"
+                self.env[n] = k
+            return out + self.block(rest, indent)
+        if isinstance(st, ast.Return):
+            if st.value is None:
+                raise Unsupported("bare return")
+            return f"{pad}{self.value(st.value)}\n"
+        if isinstance(st, ast.Raise):
+            if not self.spec.ret.startswith("Option"):
+                raise Unsupported("raise in a total function")
+            return f"{pad}none\n"
+        if isinstance(st, ast.If):
+            r = self.static(st.test)
+            if r is not None:
+                return self.block(list(st.body if r else st.orelse) + rest, indent)
+            if self.terminates(st.body) and (not st.orelse or self.terminates(st.orelse)):
+                if st.orelse and rest:
+                    raise Unsupported("statements after a returning if/else")
+                c = self.bool_prop(st.test)
+                saved = (dict(self.env), dict(self.counter))
+                a = self.block(st.body, indent + 1)
+                self.env = dict(saved[0])
+                b = self.block(list(st.orelse) if st.orelse else rest, indent + 1)
+                return f"{pad}if {c} then\n{a}{pad}else\n{b}"
+            # merging if: both branches only assign
+            c = self.bool_prop(st.test)
+            e1, e2 = self.sym(st.body, self.env), self.sym(st.orelse, self.env)
+            out = ""
+            for n in sorted(set(e1) | set(e2)):
+                a, b = e1.get(n), e2.get(n)
+                if a is None or b is None:
+                    raise Unsupported(f"{n} is assigned on one path only and was not defined before")
+                if a != b:
+                    k = self.fresh(n)
+                    out += f"{pad}let {k} : Int := if {c} then {a} else {b}\n"
+                    e1[n] = k
+            for n in e1:
+                if n in e2:
+                    self.env[n] = e1[n]
+            return out + self.block(rest, indent)
+        raise Unsupported(f"statement not in subset: {self.src(st)[:80]}")
+
+    def render(self, fn: ast.FunctionDef) -> str:
+        for k, v in self.spec.rename.items():
+            if k.isidentifier():           # python parameters (possibly re-assigned later)
+                self.env[k] = v
+        return super().render(fn)
+
+
+def require_stmt(fn: ast.FunctionDef, text: str) -> None:
+    """The function's body (top level) contains a statement whose source is exactly `text`."""
+    want = ast.unparse(ast.parse(text).body[0])
+    if not any(ast.unparse(st) == want for st in fn.body):
+        raise Unsupported(f"{fn.name}: expected statement `{want}` not found")
+
+
+class SegLoop:
+    """The shape of ftp.toSegments: a list-of-strings state folded over `<param>.split("<c>")`."""
+
+    def __init__(self, state: str, elem: str, params: dict[str, str]):
+        self.state, self.elem, self.params = state, elem, params   # params: python name → lean name
+
+    @staticmethod
+    def lit(node) -> str:
+        if not (isinstance(node, ast.Constant) and isinstance(node.value, str)):
+            raise Unsupported(f"not a string literal: {ast.unparse(node)}")
+        if any(ord(ch) > 255 for ch in node.value):
+            raise Unsupported(f"string literal outside latin-1: {ast.unparse(node)}")
+        return "([" + ", ".join(str(ord(ch)) for ch in node.value) + "] : Str)"
+
+    @staticmethod
+    def char(node) -> str:
+        if not (isinstance(node, ast.Constant) and isinstance(node.value, str) and len(node.value) == 1
+                and ord(node.value) < 256):
+            raise Unsupported(f"not a one-character latin-1 literal: {ast.unparse(node)}")
+        return f"({ord(node.value)} : UInt8)"
+
+    def text(self, node) -> str:
+        if isinstance(node, ast.Name) and node.id == self.elem:
+            return self.elem
+        if isinstance(node, ast.Name) and node.id in self.params:
+            return self.params[node.id]
+        return self.lit(node)
+
+    def cond(self, node, st: str | None) -> str:
+        """Lean Prop (decidable); `st` is the current term of the state (None outside the loop)."""
+        if isinstance(node, ast.BoolOp):
+            op = " ∧ " if isinstance(node.op, ast.And) else " ∨ "
+            return "(" + op.join(self.cond(v, st) for v in node.values) + ")"
+        if isinstance(node, ast.UnaryOp) and isinstance(node.op, ast.Not):
+            return f"(¬ {self.cond(node.operand, st)})"
+        if isinstance(node, ast.Name) and node.id == self.state and st is not None:
+            return f"({st} ≠ [])"
+        if isinstance(node, ast.Compare) and len(node.ops) == 1:
+            op, l, r = node.ops[0], node.left, node.comparators[0]
+            if isinstance(op, (ast.Eq, ast.NotEq)):
+                return f"({self.text(l)} {'=' if isinstance(op, ast.Eq) else '≠'} {self.text(r)})"
+            if isinstance(op, (ast.In, ast.NotIn)):
+                return f"({self.char(l)} {'∈' if isinstance(op, ast.In) else '∉'} {self.text(r)})"
+        if (isinstance(node, ast.Call) and isinstance(node.func, ast.Attribute) and node.func.attr == "startswith"
+                and len(node.args) == 1 and not node.keywords):
+            return f"(List.isPrefixOf {self.lit(node.args[0])} {self.text(node.func.value)} = true)"
+        raise Unsupported(f"condition not in subset: {ast.unparse(node)}")
+
+    def body(self, stmts, st: str, indent: int, guarded: bool) -> str:
+        """Lean term of type `Option (List Str)`: the state after this iteration, `none` = raise."""
+        pad = "  " * indent
+        stmts = list(stmts)
+        if not stmts:
+            return f"{pad}some {st}\n"
+        s0, rest = stmts[0], stmts[1:]
+        if isinstance(s0, ast.Continue):
+            return f"{pad}some {st}\n"
+        if isinstance(s0, ast.Raise):
+            return f"{pad}none\n"
+        if isinstance(s0, ast.Expr) and isinstance(s0.value, ast.Call) and isinstance(s0.value.func, ast.Attribute) \
+                and isinstance(s0.value.func.value, ast.Name) and s0.value.func.value.id == self.state \
+                and not s0.value.keywords:
+            meth, args = s0.value.func.attr, s0.value.args
+            if meth == "pop" and not args:
+                if not guarded:
+                    raise Unsupported(f"{self.state}.pop() not directly under `if {self.state}:` (IndexError possible)")
+                return self.body(rest, f"({st}).dropLast", indent, False)
+            if meth == "append" and len(args) == 1:
+                return self.body(rest, f"({st} ++ [{self.text(args[0])}])", indent, guarded)
+        if isinstance(s0, ast.If):
+            g = isinstance(s0.test, ast.Name) and s0.test.id == self.state
+            return (f"{pad}if {self.cond(s0.test, st)} then\n" + self.body(list(s0.body) + rest, st, indent + 1, g)
+                    + f"{pad}else\n" + self.body(list(s0.orelse) + rest, st, indent + 1, False))
+        raise Unsupported(f"loop statement not in subset: {ast.unparse(s0)[:80]}")
+
+    def listexpr(self, node) -> str:
+        s = ast.unparse(node)
+        if s == "[]":
+            return "([] : List Str)"
+        for py, lean in self.params.items():
+            if s in (f"{py}[:]", f"list({py})", f"{py}.copy()"):
+                return lean
+        raise Unsupported(f"initial state not in subset: {s}")
+
+    def render(self, fn: ast.FunctionDef, leanname: str, lean_params: str) -> str:
+        stmts = [st for st in fn.body
+                 if not (isinstance(st, ast.Expr) and isinstance(st.value, ast.Constant) and isinstance(st.value.value, str))]
+        if len(stmts) != 3:
+            raise Unsupported(f"{fn.name}: expected `if .. init`, `for`, `return`")
+        ini, loop, ret = stmts
+
+        def single_init(b):
+            if not (len(b) == 1 and isinstance(b[0], ast.Assign) and len(b[0].targets) == 1
+                    and isinstance(b[0].targets[0], ast.Name) and b[0].targets[0].id == self.state):
+                raise Unsupported(f"{fn.name}: initialisation branch is not `{self.state} = ...`")
+            return self.listexpr(b[0].value)
+        if not isinstance(ini, ast.If):
+            raise Unsupported(f"{fn.name}: first statement is not the initialising if/else")
+        init = f"if {self.cond(ini.test, None)} then {single_init(ini.body)} else {single_init(ini.orelse)}"
+        if not (isinstance(loop, ast.For) and isinstance(loop.target, ast.Name) and loop.target.id == self.elem
+                and not loop.orelse and isinstance(loop.iter, ast.Call) and isinstance(loop.iter.func, ast.Attribute)
+                and loop.iter.func.attr == "split" and len(loop.iter.args) == 1 and not loop.iter.keywords):
+            raise Unsupported(f"{fn.name}: loop is not `for {self.elem} in <text>.split(<c>)`")
+        for sub in ast.walk(loop):
+            if isinstance(sub, (ast.Break, ast.Return)):
+                raise Unsupported(f"{fn.name}: break/return inside the loop")
+        if not (isinstance(ret, ast.Return) and isinstance(ret.value, ast.Name) and ret.value.id == self.state):
+            raise Unsupported(f"{fn.name}: does not end in `return {self.state}`")
+        pieces = f"(pySplit {self.char(loop.iter.args[0])} {self.text(loop.iter.func.value)})"
+        step = (f"/-- one iteration of the `for {self.elem} in ...` loop; `none` = the `raise` -/\n"
+                f"def {leanname}Step ({self.state} : List Str) ({self.elem} : Str) : Option (List Str) :=\n"
+                + self.body(loop.body, self.state, 1, False))
+        top = (f"def {leanname} {lean_params} : Option (List Str) :=\n"
+               f"  let {self.state} : List Str := {init}\n"
+               f"  List.foldlM {leanname}Step {self.state} {pieces}\n")
+        return step + "\n" + top
 
 
 def find_function(tree: ast.Module, qual: str) -> ast.FunctionDef:
@@ -262,7 +596,131 @@ def gen_rfc1982(repo: Path) -> str:
     return "\n".join(out)
 
 
-KERNELS = {"Rfc1982": gen_rfc1982}
+# ---------------------------------------------------------------------------------------
+# Kernel: task.LoopingCall._intervalOf and the howLong closure of _scheduleFrom (C10)
+
+EXACT_DYADIC = ("times are integer ticks of 2^-k s small enough that float + - % are exact and the float "
+                "quotient a / b, truncated by int(), is the truncated integer quotient (harness/corr/C10.py ASSUMES; "
+                "run_impl asserts every observed time is an integral number of ticks)")
+
+
+def gen_looping(repo: Path) -> str:
+    src = (repo / "src/twisted/internet/task.py").read_text()
+    tree = ast.parse(src)
+    ren = {"self.starttime": "starttime", "self.interval": "interval", "t": "t", "when": "when"}
+    out = [
+        "/- GENERATED by harness/py2lean.py from src/twisted/internet/task.py — do not edit.",
+        "   Time is Int ticks.  `%` is Int.fmod (Python's floored remainder).",
+        f"   `int(a / b)` is Int.tdiv a b under the assumption: {EXACT_DYADIC}. -/",
+        "namespace Generated.Looping",
+        "",
+    ]
+    spec = FnSpec("LoopingCall._intervalOf", "intervalOf", [("starttime", "Int"), ("interval", "Int"), ("t", "Int")],
+                  ren, "Int", floor_ops=True, exact_truediv=EXACT_DYADIC)
+    out.append(Flow(spec).render(find_function(tree, "LoopingCall._intervalOf")))
+    sched = find_function(tree, "LoopingCall._scheduleFrom")
+    # the delay handed to callLater is howLong()'s result, and `when` is _scheduleFrom's parameter
+    require_stmt(sched, "self.call = self.clock.callLater(howLong(), self)")
+    if [a.arg for a in sched.args.args] != ["self", "when"]:
+        raise Unsupported("_scheduleFrom: parameters are not (self, when)")
+    hl = find_function(tree, "LoopingCall._scheduleFrom.howLong")
+    if hl.args.args:
+        raise Unsupported("howLong: takes parameters")
+    spec = FnSpec("LoopingCall._scheduleFrom.howLong", "howLong",
+                  [("starttime", "Int"), ("interval", "Int"), ("when", "Int")], ren, "Int", floor_ops=True)
+    out.append(Flow(spec).render(hl))
+    out.append("end Generated.Looping\n")
+    return "\n".join(out)
+
+
+# ---------------------------------------------------------------------------------------
+# Kernel: static.File._rangeToOffsetAndSize (C25)
+
+def gen_range(repo: Path) -> str:
+    src = (repo / "src/twisted/web/static.py").read_text()
+    tree = ast.parse(src)
+    fn = find_function(tree, "File._rangeToOffsetAndSize")
+    if [a.arg for a in fn.args.args] != ["self", "start", "end"]:
+        raise Unsupported("_rangeToOffsetAndSize: parameters are not (self, start, end)")
+    out = [
+        "/- GENERATED by harness/py2lean.py from src/twisted/web/static.py — do not edit.",
+        "   One definition per None-pattern of (start, end) that _parseRangeHeader can produce;",
+        "   `x is None` is resolved statically in each.  `self.getFileSize()` is the parameter fileSize. -/",
+        "namespace Generated.Range",
+        "",
+    ]
+    ren = {"self.getFileSize()": "fileSize", "start": "start", "end": "stop"}
+    for lean, params, nones in (
+        ("r2osSuffix", [("fileSize", "Int"), ("stop", "Int")], {"start": True, "end": False}),
+        ("r2osFrom", [("fileSize", "Int"), ("start", "Int")], {"start": False, "end": True}),
+        ("r2osFromTo", [("fileSize", "Int"), ("start", "Int"), ("stop", "Int")], {"start": False, "end": False}),
+    ):
+        names = {n for n, _ in params}
+        r = {k: v for k, v in ren.items() if v in names}
+        spec = FnSpec("File._rangeToOffsetAndSize", lean, params, r, "Int × Int", nones=nones)
+        out.append(Flow(spec).render(fn))
+    out.append("end Generated.Range\n")
+    return "\n".join(out)
+
+
+# ---------------------------------------------------------------------------------------
+# Kernel: abstract.FileDescriptor._isSendBufferFull (C14)
+
+def gen_fd(repo: Path) -> str:
+    src = (repo / "src/twisted/internet/abstract.py").read_text()
+    tree = ast.parse(src)
+    fn = find_function(tree, "FileDescriptor._isSendBufferFull")
+    out = [
+        "/- GENERATED by harness/py2lean.py from src/twisted/internet/abstract.py — do not edit.",
+        "   `len(self.dataBuffer)` is the parameter dataBufferLen. -/",
+        "namespace Generated.FD",
+        "",
+    ]
+    ren = {"len(self.dataBuffer)": "(dataBufferLen : Int)", "self._tempDataLen": "(tempDataLen : Int)",
+           "self.bufferSize": "(bufferSize : Int)"}
+    spec = FnSpec("FileDescriptor._isSendBufferFull", "isSendBufferFull",
+                  [("dataBufferLen", "Nat"), ("tempDataLen", "Nat"), ("bufferSize", "Nat")], ren, "Bool")
+    out.append(Flow(spec).render(fn))
+    out.append("end Generated.FD\n")
+    return "\n".join(out)
+
+
+# ---------------------------------------------------------------------------------------
+# Kernel: ftp.toSegments (C54)
+
+PY_SPLIT = """abbrev Str := List UInt8
+
+/-- `str.split(sep)` for a one-character separator (always at least one piece). -/
+def pySplit (sep : UInt8) : Str → List Str
+  | [] => [[]]
+  | c :: cs =>
+    if c = sep then [] :: pySplit sep cs
+    else match pySplit sep cs with
+      | [] => [[c]]
+      | p :: ps => (c :: p) :: ps
+"""
+
+
+def gen_ftp(repo: Path) -> str:
+    src = (repo / "src/twisted/protocols/ftp.py").read_text()
+    tree = ast.parse(src)
+    fn = find_function(tree, "toSegments")
+    if [a.arg for a in fn.args.args] != ["cwd", "path"]:
+        raise Unsupported("toSegments: parameters are not (cwd, path)")
+    out = [
+        "/- GENERATED by harness/py2lean.py from src/twisted/protocols/ftp.py — do not edit.",
+        "   Text is List UInt8 (code points < 256: the command channel is latin-1); `none` = raise InvalidPath.",
+        "   The for-loop over path.split(\"/\") is List.foldlM of the step function in Option. -/",
+        "namespace Generated.Ftp",
+        "",
+        PY_SPLIT,
+        SegLoop("segs", "s", {"cwd": "cwd", "path": "path"}).render(fn, "toSegments", "(cwd : List Str) (path : Str)"),
+        "end Generated.Ftp\n",
+    ]
+    return "\n".join(out)
+
+
+KERNELS = {"Rfc1982": gen_rfc1982, "Looping": gen_looping, "Range": gen_range, "FD": gen_fd, "Ftp": gen_ftp}
 
 
 def main(argv):
@@ -274,7 +732,7 @@ def main(argv):
         target = outdir / f"{name}.lean"
         try:
             text = gen(repo)
-        except (Unsupported, SyntaxError, OSError) as e:
+        except Exception as e:   # Unsupported, SyntaxError, OSError, or a bug in a generator: same outcome
             # Leave a file that cannot satisfy the equality theorems: the tie is broken.
             text = (f"/- GENERATED: translation FAILED: {e!s} -/\n"
                     f"namespace Generated.{name}\n"
